@@ -478,6 +478,24 @@ func (d *driver) exec(st step) {
 			d.aborted = true
 		}
 	case "self":
+		if st.Label != "" {
+			// the answer to one particular call's request, once, if the room has
+			// seen that request
+			cl := d.calls[st.Label]
+			if cl == nil || cl.answered {
+				break
+			}
+			rq, ok := w.requestSeen(cl.reqID, 0)
+			if !ok {
+				break
+			}
+			cl.answered = true
+			d.occ[d.addr(st.Room)] = rq.Addr
+			w.presenceItem(rq.Addr, "", rq.ID, true, st.Aff, st.Role, codes(st, 110)...)
+			d.countItem(st, "")
+			d.c.Count("overlapping_rejoin_answers", 1)
+			break
+		}
 		// the room answers at the address the request was actually sent to
 		id, to := d.latestJoinRequest(d.addr(st.Room))
 		if to == "" {
